@@ -29,7 +29,16 @@ pub fn run(ctx: &mut Ctx) {
         let mut xs = base.clone();
         xs.intercept_stdout(true);
         let rec = ctx.rng.chance(30);
+        // sometimes the limits are configured while values of earlier programs lie on the stack: the limit is S all the
+        // same (not S on top of what is there)
+        if ctx.rng.chance(35) {
+            let d = ctx.rng.below(5) + 1;
+            let pre: String = (0..d).map(|i| format!("{} ", i + 100)).collect();
+            xs.eval(&pre).unwrap();
+            ctx.tag("preloaded-stack");
+        }
         xs.set_recording_enabled(rec);
+        ctx.progress(&format!("C14 compile+step `{}`", src));
         match crate::guarded(|| xs.compile(&src)) { Some(Ok(())) => (), _ => { ctx.tag("skipped:build-error"); continue; } }
         n_done += 1;
         for t in tags.iter() { ctx.tag(&format!("prog:{}", t)); }
@@ -56,16 +65,31 @@ pub fn run(ctx: &mut Ctx) {
         let case = format!("C14 `{}` N={:?} S={:?}", src, n_lim, s_lim);
         let mut cur_n = n_lim;
         let mut cur_s = s_lim;
+        // executed since the limit was set, counted here and not read off the meter
+        let mut executed = 0usize;
         for _ in 0..max_steps {
             if !xs.is_running() { break; }
+            if rec && ctx.rng.chance(25) {
+                // stepping backwards gives nothing back: the instructions have been executed
+                let rr = match crate::guarded(|| xs.rnext()) { Some(r) => r, None => { script.push("r".into()); answers.push("panic@".into()); break; } };
+                script.push("r".into());
+                answers.push(format!("{}@{}", vmcanon::outcome(&rr), vmcanon::full_dump(&mut xs)));
+                ctx.tag("step:rnext");
+                if rr.is_err() { break; }
+                continue;
+            }
             let r = match crate::guarded(|| xs.next()) { Some(r) => r, None => { script.push("n".into()); answers.push("panic@".into()); break; } };
             script.push("n".into());
             answers.push(format!("{}@{}", vmcanon::outcome(&r), vmcanon::full_dump(&mut xs)));
             let d = xs.verif_dump();
+            if r.is_ok() { executed += 1; }
             // hard bounds
             if let Some(n) = cur_n {
                 let c = case.clone();
                 ctx.check(d.insn_meter <= n, || c, || format!("meter <= {}", n), || format!("meter = {}", d.insn_meter));
+                let c = case.clone();
+                ctx.check(executed <= n, || c, || format!("at most {} instructions execute after the limit is set (next / rnext in any order)", n),
+                    || format!("{} executed", executed));
             }
             if let Some(s) = cur_s {
                 let depth = d.data_visible.len() + d.data_hidden.len();
@@ -130,6 +154,7 @@ pub fn run(ctx: &mut Ctx) {
                 _ => (format!("[ #( {}7 #) ] drop oops-unknown", block), "rejected-after-meta"),
             };
             ctx.tag(&format!("sources:{}", kind));
+            ctx.progress(&format!("C14 sources N={} {}; then `{}`", n_lim, ops.iter().map(|o| o.text()).collect::<Vec<_>>().join("; "), src));
             let op = Op::Eval(src);
             let r = apply(&mut xs, &op);
             ops.push(op);
